@@ -49,6 +49,40 @@ CHECKS = {
              "the returned distance.",
         note="Trusted: TLC, exact-domain encoding, ctypes layout. Known finding: dtw_expand_wps_slice on proper sub-ranges "
              "(see known_findings.jsonl)."),
+    "C05": dict(
+        level="model_checking", design="DESIGN.md 4/C05",
+        technique="TLA+ path predicate (Admissible, PathCost = Opt) judges every recorded warping path",
+        text="Paths recorded from best_path on Python and C matrices (default and internal representation with penalty), "
+             "best_path2, warping_path, warping_path_fast, best_path_compact, dtw_ndim.warping_path, warp and a ctypes "
+             "call of dtw_warping_path_ndim (index arrays of exactly l1+l2) are judged by TLC clause by clause: range, "
+             "steps, band, max_step, psi-relaxed start and end (L-shaped), cost along the path = optimum; any optimal "
+             "admissible path is accepted, engines are not compared with each other.",
+        note="Trusted: TLC, exact-domain encoding. Known finding: with psi-relaxation at the end the back-tracking may miss "
+             "the chosen end point (end/cost/empty clauses only; see known_findings.jsonl)."),
+    "C09": dict(
+        level="model_checking", design="DESIGN.md 4/C09",
+        technique="TLA+ definitions LBKeogh/ED model-checked for the sandwich; recorded bounds of both engines trace-validated by TLC",
+        text="Act M proves LB_Keogh <= Opt (no psi, any penalty) and Opt <= ED (penalty-free or equal lengths) and Opt = ED "
+             "for window 1 on the model; every recorded LB_Keogh / Euclidean distance / only_ub value (Python, Cython, direct "
+             "C calls, ndim 1-3, signed data) must equal the specification's value and satisfy the sandwich with the "
+             "recorded DTW distance.",
+        note="Trusted: TLC, exact-domain encoding."),
+    "C10": dict(
+        level="model_checking", design="DESIGN.md 4/C10",
+        technique="laws model-checked on the TLA+ definition; related pairs of real calls trace-validated by TLC",
+        text="Act M proves identity, non-negativity, symmetry with the psi swap and monotonicity in window / psi / max_step / "
+             "penalty for the definition on every case of the slice; for recorded pairs of real calls (both engines, "
+             "distance-matrix mirror entries) TLC checks each relation and the base value against Opt.",
+        note="Trusted: TLC, exact-domain encoding. Independent of any reference implementation."),
+    "C11": dict(
+        level="model_checking", design="DESIGN.md 4/C11",
+        technique="TLA+ DTWCore with vector point distance judges multivariate distances, matrices, paths and matrix containers",
+        text="Series of d-dimensional points (d 1..4, point alphabets with integer pairwise Euclidean distances) are run "
+             "through the multivariate distance (8-12 routes, both engines, list / 3-D array containers, distance "
+             "matrices, pruning with the n-D Euclidean bound, d=1 against the flattened univariate call), cost matrix "
+             "and warping path routines; TLC judges all of them against the specification with PD = (squared) "
+             "Euclidean distance between the vectors.",
+        note="Trusted: TLC, exact-domain encoding. Known finding C11-psi-end-backtrack (same as C05)."),
 }
 
 NOT_YET = {
